@@ -19,6 +19,7 @@ Names == <<"a", "b", "c", "d", "e", "f", "g">>
 \* the operand that follows the n-th operator
 Operand(n, op) == IF op = "between" THEN Lst(<<Leaf("id", Names[n + 1]), Leaf("num", "7")>>)
                   ELSE IF op = "in" THEN Lst(<<Leaf("str", "x"), Leaf("id", Names[n + 1])>>)
+                  ELSE IF n % 3 = 2 THEN Leaf("num", IF n = 2 THEN "2.0" ELSE "10.50")       \* float literals keep their source text
                   ELSE Leaf("id", Names[n + 1])
 
 VARIABLE ops
